@@ -2,6 +2,7 @@
 C14: helper lemmas about `DSV.takeDsMulti` (Lib/DatasetOps4.lean).
 -/
 import DimModel.Lib.DatasetOps4
+import DimModel.Proofs.C14
 namespace DimModel
 namespace DSV
 open Lib
@@ -18,6 +19,367 @@ theorem takeDsMulti_attrs {α : Type} (ds out : Ds α) (names : Option (List Str
     · split at h
       · cases h
       · cases h; rfl
+
+
+theorem getAxesOrtho_names_sublist : ∀ (axes : List Axis) (raw : List RawIx) (pix : List PosIx),
+    ((getAxesOrtho axes raw pix).map (·.name)).Sublist (axes.map (·.name))
+  | [], raw, pix => by simp [getAxesOrtho]
+  | a :: axes, [], pix => by simp [getAxesOrtho]
+  | a :: axes, r :: raw, [] => by simp [getAxesOrtho]
+  | a :: axes, r :: raw, p :: pix => by
+    have ih := getAxesOrtho_names_sublist axes raw pix
+    unfold getAxesOrtho at ih ⊢
+    rw [List.zip_cons_cons, List.zip_cons_cons]
+    cases p with
+    | scalar q =>
+      rw [List.filterMap_cons_none rfl, List.map_cons]
+      exact List.Sublist.cons _ ih
+    | list ps =>
+      by_cases hr : (r == RawIx.slice none none none) = true
+      · rw [List.filterMap_cons_some (b := a) (by simp only [hr, if_true]), List.map_cons, List.map_cons]
+        exact List.Sublist.cons_cons _ ih
+      · rw [List.filterMap_cons_some (b := axisSelect a ps) (by simp only [hr]; rfl), List.map_cons, List.map_cons]
+        exact List.Sublist.cons_cons _ ih
+
+theorem getAxesOrtho_names_nodup (axes : List Axis) (raw : List RawIx) (pix : List PosIx)
+    (hd : (axes.map (·.name)).Nodup) : ((getAxesOrtho axes raw pix).map (·.name)).Nodup :=
+  List.Nodup.sublist (getAxesOrtho_names_sublist axes raw pix) hd
+
+theorem mapM_ok_idx {ε β γ : Type} (f : β → Except ε γ) : ∀ (l : List β) (out : List γ),
+    l.mapM f = .ok out → ∀ (i : Nat) (x : β), l[i]? = some x → ∃ y, out[i]? = some y ∧ f x = .ok y
+  | [], _, _, i, x, hx => by simp at hx
+  | a :: l, out, h, i, x, hx => by
+    obtain ⟨b, bs, hb, hbs, rfl⟩ := mapM_cons_ok f a l out h
+    cases i with
+    | zero =>
+      simp only [List.getElem?_cons_zero, Option.some.injEq] at hx
+      subst hx
+      exact ⟨b, by simp, hb⟩
+    | succ i =>
+      simp only [List.getElem?_cons_succ] at hx ⊢
+      exact mapM_ok_idx f l bs hbs i x hx
+
+/-- the size check of a boolean index in position mode hands an accepted index over as it is -/
+theorem maskCheck_id : ∀ (l : List (RawIx × Axis)) (out : List RawIx),
+    l.mapM (fun (x : RawIx × Axis) =>
+      match x with
+      | (r, ax) =>
+        match r with
+        | .mask m => if m.length == ax.size then pure (RawIx.mask m) else (.error .index : Except Err RawIx)
+        | r => pure r) = .ok out → out = l.map (·.1)
+  | [], out, h => by
+    simp only [List.mapM_nil, pure, Except.pure, Except.ok.injEq] at h
+    subst h; rfl
+  | (r, ax) :: l, out, h => by
+    obtain ⟨b, bs, hb, hbs, rfl⟩ := mapM_cons_ok _ _ l out h
+    rw [maskCheck_id l bs hbs, List.map_cons]
+    congr 1
+    cases r with
+    | mask m =>
+      simp only [] at hb
+      split at hb
+      · simp only [pure, Except.pure, Except.ok.injEq] at hb; exact hb.symm
+      · cases hb
+    | int i => simp only [pure, Except.pure, Except.ok.injEq] at hb; exact hb.symm
+    | ints li => simp only [pure, Except.pure, Except.ok.injEq] at hb; exact hb.symm
+    | slice a b c => simp only [pure, Except.pure, Except.ok.injEq] at hb; exact hb.symm
+
+/-- (1a) the axes of a variable indexed by position with the Dataset's resolved indices (restricted to the variable's
+dimensions) are axes of the Dataset's selection: the hypothesis `hsub` of `foldlM_takeStep` under `OwnAxes` -/
+theorem takeRaw_axes_sub {α : Type} (AXs : List Axis) (raw : List RawIx) (pix : List PosIx) (v r : DimArray α)
+    (hd : (AXs.map (·.name)).Nodup) (hown : ∀ ax ∈ v.axes, ax ∈ AXs) (hlen : raw.length = AXs.length)
+    (hpix : (raw.zip AXs).mapM (fun (x : RawIx × Axis) => resolveRaw x.1 x.2.size) = .ok pix)
+    (ht : takeRaw v (rawFor (AXs.map (·.name)) raw v.axes) = .ok r) :
+    ∀ ax ∈ r.axes, ax ∈ getAxesOrtho AXs raw pix := by
+  unfold takeRaw at ht
+  obtain ⟨raw1, h1, ht⟩ := except_bind_ok _ _ _ ht
+  obtain ⟨pix1, h2, ht⟩ := except_bind_ok _ _ _ ht
+  simp only [pure, Except.pure, Except.ok.injEq] at ht
+  subst ht
+  have hR : raw1 = rawFor (AXs.map (·.name)) raw v.axes := by
+    rw [maskCheck_id _ raw1 h1]
+    exact List.map_fst_zip (by simp [rawFor])
+  subst hR
+  have hl1 := mapM_ok_length _ _ _ h2
+  have hlp := mapM_ok_length _ _ _ hpix
+  simp only [List.length_zip, rawFor, List.length_map, Nat.min_self] at hl1
+  simp only [List.length_zip, hlen, Nat.min_self] at hlp
+  intro ax' hax'
+  simp only [getAxesOrtho, List.mem_filterMap] at hax' ⊢
+  obtain ⟨⟨⟨a, rr⟩, p⟩, hmem, hf⟩ := hax'
+  obtain ⟨i, hi, hget⟩ := List.mem_iff_getElem.1 hmem
+  simp only [List.length_zip, rawFor, List.length_map] at hi
+  simp only [List.getElem_zip, Prod.mk.injEq, rawFor, List.getElem_map] at hget
+  obtain ⟨⟨ha, hrr⟩, hp⟩ := hget
+  rw [ha] at hrr
+  have hiv : i < v.axes.length := by omega
+  have haAX : a ∈ AXs := hown a (ha ▸ List.getElem_mem hiv)
+  -- the resolved position of the variable's index
+  obtain ⟨y, hy1, hy2⟩ := mapM_ok_idx _ _ _ h2 i (rr, a) (by
+    rw [List.getElem?_eq_getElem (by simp [rawFor]; omega)]
+    simp only [List.getElem_zip, rawFor, List.getElem_map, ha, hrr])
+  have hyp : y = p := by
+    rw [List.getElem?_eq_getElem (by omega)] at hy1
+    simp only [Option.some.injEq] at hy1
+    rw [← hy1, hp]
+  subst hyp
+  -- the Dataset's side
+  have hjm : a.name ∈ AXs.map (·.name) := List.mem_map_of_mem haAX
+  have hj : (AXs.map (·.name)).idxOf a.name < (AXs.map (·.name)).length := List.idxOf_lt_length_iff.2 hjm
+  have hj' : (AXs.map (·.name)).idxOf a.name < AXs.length := by simpa using hj
+  have hname : (AXs[(AXs.map (·.name)).idxOf a.name]).name = a.name := by
+    have := List.getElem_idxOf hj
+    simpa only [List.getElem_map] using this
+  have hax : AXs[(AXs.map (·.name)).idxOf a.name] = a := mem_name_inj hd (List.getElem_mem hj') haAX hname
+  have hrj : raw[(AXs.map (·.name)).idxOf a.name]'(by omega) = rr := by
+    rw [← hrr, List.getD_eq_getElem?_getD, List.getElem?_eq_getElem (by omega), Option.getD_some]
+  obtain ⟨z, hz1, hz2⟩ := mapM_ok_idx _ _ _ hpix ((AXs.map (·.name)).idxOf a.name) (rr, a) (by
+    rw [List.getElem?_eq_getElem (by simp; omega)]
+    simp only [List.getElem_zip, hrj, hax])
+  simp only at hy2 hz2
+  rw [hy2] at hz2
+  cases hz2
+  refine ⟨((a, rr), y), ?_, hf⟩
+  rw [List.mem_iff_getElem]
+  refine ⟨(AXs.map (·.name)).idxOf a.name, by simp; omega, ?_⟩
+  rw [List.getElem?_eq_getElem (by omega)] at hz1
+  simp only [Option.some.injEq] at hz1
+  simp only [List.getElem_zip, hax, hrj, hz1]
+
+/-- one step of the loop of `Dataset.take`: read the variable, index it by position, store it -/
+def takeStep {α} (ds : Ds α) (raw : List RawIx) (acc : Ds α) (nm : String) : Except Err (Ds α) :=
+  match ds.get? nm with
+  | none => .error .key
+  | some v => do
+    let r ← takeRaw v (rawFor ds.dims raw v.axes)
+    setItem acc nm r
+
+/-- the loop of `Dataset.take` in closed form: when every indexed variable comes back over axes of the Dataset under
+construction (`hsub`), the run of `__setitem__` over distinct names builds the variable list in the order of the names,
+each entry being the positional read (`takeRaw`) of the variable of that name -/
+theorem foldlM_takeStep {α : Type} (ds : Ds α) (raw : List RawIx) (AX : List Axis) (hnd : (AX.map (·.name)).Nodup)
+    (hsub : ∀ k v r, ds.get? k = some v → takeRaw v (rawFor ds.dims raw v.axes) = .ok r → ∀ ax ∈ r.axes, ax ∈ AX) :
+    ∀ (names : List String) (pre : List (String × DimArray α)) (att : Attrs) (out : Ds α), names.Nodup →
+      (∀ k ∈ names, ∀ kv' ∈ pre, kv'.1 ≠ k) →
+      names.foldlM (takeStep ds raw) ({ axes := AX, vars := pre, attrs := att } : Ds α) = .ok out →
+      out.axes = AX ∧ out.attrs = att ∧ ∃ rs : List (String × DimArray α), out.vars = pre ++ rs ∧ rs.map (·.1) = names ∧
+        ∀ kr ∈ rs, ∃ v, ds.get? kr.1 = some v ∧ takeRaw v (rawFor ds.dims raw v.axes) = .ok kr.2
+  | [], pre, att, out, _, _, h => by
+    simp only [List.foldlM_nil, pure, Except.pure, Except.ok.injEq] at h
+    subst h
+    exact ⟨rfl, rfl, [], by simp, rfl, by simp⟩
+  | k :: names, pre, att, out, hn, hpre, h => by
+    rw [List.foldlM_cons] at h
+    obtain ⟨acc, hstep, h⟩ := except_bind_ok _ _ _ h
+    unfold takeStep at hstep
+    cases hget : ds.get? k with
+    | none => rw [hget] at hstep; cases hstep
+    | some v =>
+      rw [hget] at hstep
+      simp only [] at hstep
+      obtain ⟨r, hr, hset⟩ := except_bind_ok _ _ _ hstep
+      rw [setItem_own { axes := AX, vars := pre, attrs := att } k r hnd (hsub k v r hget hr)] at hset
+      have hf : pre.filter (·.1 != k) = pre := by
+        rw [List.filter_eq_self]
+        intro kv' hkv'
+        have := hpre k (by simp) kv' hkv'
+        simpa using this
+      simp only [hf, Except.ok.injEq] at hset
+      subst hset
+      rw [List.nodup_cons] at hn
+      obtain ⟨h1, h2, rs, h3, h4, h5⟩ := foldlM_takeStep ds raw AX hnd hsub names (pre ++ [(k, r)]) att out hn.2
+        (by
+          intro k' hk' kv' hkv'
+          rcases List.mem_append.1 hkv' with hkv' | hkv'
+          · exact hpre k' (by simp [hk']) kv' hkv'
+          · simp only [List.mem_singleton] at hkv'
+            subst hkv'
+            intro heq
+            simp only at heq
+            subst heq
+            exact hn.1 hk') h
+      refine ⟨h1, h2, (k, r) :: rs, by rw [h3]; simp, by simp [h4], ?_⟩
+      intro kr hkr
+      rcases List.mem_cons.1 hkr with rfl | hkr
+      · exact ⟨v, hget, hr⟩
+      · exact h5 kr hkr
+
+/-- `Dataset.take` (any form of index, `names=`) in closed form, given `hsub` -/
+theorem takeDsMulti_closed {α : Type} (ds out : Ds α) (names : Option (List String)) (ui : UserIndex) (cfg : IndexCfg)
+    (hd : ds.dims.Nodup) (hn : (names.getD ds.keys).Nodup)
+    (hsub : ∀ raw pix, getIndices ds.axes ui cfg = .ok raw →
+      (raw.zip ds.axes).mapM (fun (x : RawIx × Axis) => resolveRaw x.1 x.2.size) = .ok pix →
+      ∀ k v r, ds.get? k = some v → takeRaw v (rawFor ds.dims raw v.axes) = .ok r →
+        ∀ ax ∈ r.axes, ax ∈ getAxesOrtho ds.axes raw pix)
+    (h : takeDsMulti ds names ui cfg = .ok out) :
+    ∃ raw pix, getIndices ds.axes ui cfg = .ok raw ∧
+      (raw.zip ds.axes).mapM (fun (x : RawIx × Axis) => resolveRaw x.1 x.2.size) = .ok pix ∧
+      out.axes = getAxesOrtho ds.axes raw pix ∧ out.attrs = ds.attrs ∧ out.keys = names.getD ds.keys ∧
+      (∀ kr ∈ out.vars, ∃ v, ds.get? kr.1 = some v ∧ takeRaw v (rawFor ds.dims raw v.axes) = .ok kr.2) := by
+  unfold takeDsMulti at h
+  obtain ⟨raw, hraw, h⟩ := except_bind_ok _ _ _ h
+  obtain ⟨pix, hpix, h⟩ := except_bind_ok _ _ _ h
+  obtain ⟨o, hfold, h⟩ := except_bind_ok _ _ _ h
+  simp only [pure, Except.pure, Except.ok.injEq] at h
+  subst h
+  have hnd : ((getAxesOrtho ds.axes raw pix).map (·.name)).Nodup := getAxesOrtho_names_nodup ds.axes raw pix hd
+  obtain ⟨h1, _, rs, h3, h4, h5⟩ := foldlM_takeStep ds raw (getAxesOrtho ds.axes raw pix) hnd
+    (hsub raw pix hraw hpix) (names.getD ds.keys) [] [] o hn (by simp) hfold
+  refine ⟨raw, pix, hraw, hpix, h1, rfl, ?_, ?_⟩
+  · simp only [Ds.keys, h3, List.nil_append, h4]
+  · simp only [h3, List.nil_append]
+    exact h5
+
+/-! ### step (3): `takeRaw` with the indices resolved on the variable's own axes is `take` -/
+
+theorem loc_not_mask (L : List Label) (kind : Kind) (ix : Ix) (tol : Option Tol) (m : List Bool)
+    (hix : ∀ m', ix ≠ .mask m') (h : loc L kind ix tol = .ok (.mask m)) : False := by
+  unfold loc at h
+  simp only [] at h
+  split at h
+  · obtain ⟨ab, _, h⟩ := except_bind_ok _ _ _ h
+    cases h
+  · split at h <;> cases h
+  · obtain ⟨p, _, h⟩ := except_bind_ok _ _ _ h
+    cases h
+  · exact hix _ rfl
+  · split at h
+    · obtain ⟨p, _, h⟩ := except_bind_ok _ _ _ h
+      cases h
+    · split at h
+      · cases h
+      · split at h
+        · cases h
+        · split at h <;> cases h
+  · cases h
+
+theorem ixToRaw_not_mask (ix : Ix) (m : List Bool)
+    (hix : ∀ m', ix ≠ .mask m') (h : ixToRaw ix = .ok (.mask m)) : False := by
+  cases ix with
+  | scalar v => obtain ⟨p, _, h⟩ := except_bind_ok _ _ _ h; cases h
+  | list vs => obtain ⟨p, _, h⟩ := except_bind_ok _ _ _ h; cases h
+  | mask m' => exact hix _ rfl
+  | ellipsis => cases h
+  | slice s e st =>
+    unfold ixToRaw at h
+    simp only [] at h
+    cases s <;> cases e <;>
+    · simp only [bind, Except.bind, pure, Except.pure, Functor.map, Except.map] at h
+      repeat' (first | cases h | split at h)
+
+/-- what `_get_indices` hands over: a boolean index has the size of its axis -/
+theorem getIndices_mask (axes : List Axis) (ui : UserIndex) (cfg : IndexCfg) (raw : List RawIx)
+    (h : getIndices axes ui cfg = .ok raw) :
+    ∀ x ∈ raw.zip axes, ∀ m, x.1 = .mask m → (m.length == x.2.size) = true := by
+  unfold getIndices at h
+  obtain ⟨key, hkey, h⟩ := except_bind_ok _ _ _ h
+  intro x hx m hm
+  obtain ⟨i, hi, hget⟩ := List.mem_iff_getElem.1 hx
+  have hl := mapM_ok_length _ _ _ h
+  simp only [List.length_zip] at hi hl
+  obtain ⟨y, hy1, hF⟩ := mapM_ok_idx _ _ _ h i ((key.zip axes)[i]'(by simp only [List.length_zip]; omega))
+    (List.getElem?_eq_getElem _)
+  rw [List.getElem?_eq_getElem (by omega)] at hy1
+  simp only [Option.some.injEq] at hy1
+  simp only [List.getElem_zip] at hget hF
+  have hx1 : x.1 = raw[i] := by rw [← hget]
+  have hx2 : x.2 = axes[i] := by rw [← hget]
+  rw [hx2]
+  rw [hx1, hy1] at hm
+  subst hm
+  generalize key[i] = ix at hF
+  generalize axes[i] = ax at hF
+  cases ix with
+  | mask m' =>
+    simp only [] at hF
+    split at hF
+    · rename_i hc
+      obtain ⟨r, hr, hF⟩ := except_bind_ok _ _ _ hF
+      cases hr
+      simp only [pure, Except.pure, Except.ok.injEq, RawIx.mask.injEq] at hF
+      subst hF
+      exact hc
+    · obtain ⟨r, hr, hF⟩ := except_bind_ok _ _ _ hF
+      cases hr
+  | scalar v =>
+    simp only [] at hF
+    exfalso
+    split at hF
+    · obtain ⟨r, hr, hF⟩ := except_bind_ok _ _ _ hF
+      have hrm : r = .mask m := by
+        cases r <;> simp only [pure, Except.pure, Except.ok.injEq] at hF <;>
+          first | exact hF | (split at hF <;> cases hF)
+      subst hrm
+      exact loc_not_mask _ _ _ _ _ (fun _ he => by cases he) hr
+    · obtain ⟨r, hr, hF⟩ := except_bind_ok _ _ _ hF
+      have hrm : r = .mask m := by
+        cases r <;> simp only [pure, Except.pure, Except.ok.injEq] at hF <;>
+          first | exact hF | (split at hF <;> cases hF)
+      subst hrm
+      exact ixToRaw_not_mask _ _ (fun _ he => by cases he) hr
+  | list v =>
+    simp only [] at hF
+    exfalso
+    split at hF
+    · obtain ⟨r, hr, hF⟩ := except_bind_ok _ _ _ hF
+      have hrm : r = .mask m := by
+        cases r <;> simp only [pure, Except.pure, Except.ok.injEq] at hF <;>
+          first | exact hF | (split at hF <;> cases hF)
+      subst hrm
+      exact loc_not_mask _ _ _ _ _ (fun _ he => by cases he) hr
+    · obtain ⟨r, hr, hF⟩ := except_bind_ok _ _ _ hF
+      have hrm : r = .mask m := by
+        cases r <;> simp only [pure, Except.pure, Except.ok.injEq] at hF <;>
+          first | exact hF | (split at hF <;> cases hF)
+      subst hrm
+      exact ixToRaw_not_mask _ _ (fun _ he => by cases he) hr
+  | slice a b c =>
+    simp only [] at hF
+    exfalso
+    split at hF
+    · obtain ⟨r, hr, hF⟩ := except_bind_ok _ _ _ hF
+      have hrm : r = .mask m := by
+        cases r <;> simp only [pure, Except.pure, Except.ok.injEq] at hF <;>
+          first | exact hF | (split at hF <;> cases hF)
+      subst hrm
+      exact loc_not_mask _ _ _ _ _ (fun _ he => by cases he) hr
+    · obtain ⟨r, hr, hF⟩ := except_bind_ok _ _ _ hF
+      have hrm : r = .mask m := by
+        cases r <;> simp only [pure, Except.pure, Except.ok.injEq] at hF <;>
+          first | exact hF | (split at hF <;> cases hF)
+      subst hrm
+      exact ixToRaw_not_mask _ _ (fun _ he => by cases he) hr
+  | ellipsis =>
+    simp only [] at hF
+    exfalso
+    split at hF
+    · obtain ⟨r, hr, hF⟩ := except_bind_ok _ _ _ hF
+      have hrm : r = .mask m := by
+        cases r <;> simp only [pure, Except.pure, Except.ok.injEq] at hF <;>
+          first | exact hF | (split at hF <;> cases hF)
+      subst hrm
+      exact loc_not_mask _ _ _ _ _ (fun _ he => by cases he) hr
+    · obtain ⟨r, hr, hF⟩ := except_bind_ok _ _ _ hF
+      have hrm : r = .mask m := by
+        cases r <;> simp only [pure, Except.pure, Except.ok.injEq] at hF <;>
+          first | exact hF | (split at hF <;> cases hF)
+      subst hrm
+      exact ixToRaw_not_mask _ _ (fun _ he => by cases he) hr
+
+/-- (3) the positional read with the indices `_get_indices` resolves on the variable's own axes IS the variable's `take` -/
+theorem takeRaw_eq_take {α : Type} (v : DimArray α) (ui : UserIndex) (cfg : IndexCfg) (raw : List RawIx)
+    (h : getIndices v.axes ui cfg = .ok raw) : takeRaw v raw = take v ui cfg := by
+  have hlen := getIndices_length _ _ _ _ h
+  have hm := getIndices_mask _ _ _ _ h
+  unfold takeRaw take
+  rw [h, mapM_ok_map _ (·.1) (raw.zip v.axes) (by
+    intro x hx
+    obtain ⟨r, ax⟩ := x
+    cases r with
+    | mask m => simp only []; rw [if_pos (hm (.mask m, ax) hx m rfl)]; rfl
+    | int i => rfl
+    | ints l => rfl
+    | slice a b c => rfl), List.map_fst_zip (by omega)]
 
 end DSV
 end DimModel
